@@ -26,11 +26,12 @@ void h_proveparams(void) {
             "C09 proveparams: refuses only a nonzero range whose value or minimum reaches 2^63 while the other is nonzero");
     } else {
         u128 prod = v, top;   /* v * 10^exp and (2^mantissa-1) * 10^exp, computed by repeated multiplication by ten in 128 bits */
-        uint64_t p10 = 1; int e;
+        uint64_t p10 = 1, p64 = v; int e;
         __CPROVER_assert(exp >= 0 && exp <= 18 && (exp_in < 0 ? exp == 0 : exp <= exp_in), "C09 proveparams: exponent only ever reduced, result in [0,18]");
         for (e = 0; e < 18; e++) if (e < exp) { p10 *= 10; prod *= 10; }
+        for (e = 0; e < exp; e++) p64 *= 10;     /* same loop shape as the code: the solver only relates structurally identical product chains */
         __CPROVER_assert(scale == p10, "C09 proveparams: scale = 10^exp");
-        __CPROVER_assert((uint64_t)prod + min_value == value, "C09 proveparams: v*10^exp + min_value' = value (mod 2^64)");
+        __CPROVER_assert(p64 + min_value == value, "C09 proveparams: v*10^exp + min_value' = value (mod 2^64)");
 #ifdef PP_ARITH
         __CPROVER_assert(prod <= UINT64_MAX && prod + min_value <= UINT64_MAX,
             "C09 proveparams: v*scale + min_value' = value without 64-bit overflow");
